@@ -212,6 +212,13 @@ def audit(ctx, prop_modules):
         bad = [a for a in seen[short] if a not in STD_AXIOMS]
         if bad:
             ctx.audit_problems.append("theorem %s depends on non-standard axioms %s" % (n, bad))
+    if ctx.tier == "thorough":
+        # second opinion: the toolchain's independent re-checker replays the compiled declarations of the property modules
+        # (and of everything they import) through the kernel
+        r = subprocess.run(["lake", "env", "leanchecker"] + list(imports), capture_output=True, text=True, cwd=LEAN_DIR, timeout=1800)
+        ctx.extra["leanchecker"] = dict(modules=list(imports), exit=r.returncode, output=(r.stdout + r.stderr)[-300:])
+        if r.returncode != 0:
+            ctx.audit_problems.append("leanchecker rejects %s: %s" % (imports, (r.stdout + r.stderr)[-300:]))
 
 
 # -------------------------------------------------------------------- parallel case execution
